@@ -17,7 +17,7 @@ CONFIGS = [('pen0', 0, 0, False), ('pen1', 1, 0, False), ('pen10', 10, 0, False)
 
 
 def vbp_grid(res, drv, G, stats):
-    exe = C.build_harness('c04_vbp', ['libavoid'], 'exc')
+    exe = A.build_harness_retry('c04_vbp', ['libavoid'], 'exc')
     rc, out, err, dt = C.sh([exe, str(G)], timeout=600)
     cpp = ''.join(out.split())
     spec = A.run_driver(drv, ['VBPGRID %d' % G])[0]
@@ -178,4 +178,25 @@ def replay(path):
 def warm():
     A.harness()
     A.driver()
-    C.build_harness('c04_vbp', ['libavoid'], 'exc')
+    A.build_harness_retry('c04_vbp', ['libavoid'], 'exc')
+
+
+META = {
+    'property_id': PID,
+    'level_claimed': {
+        'category': 'proof',
+        'text': 'Coq theorems (Properties/C04.v): a certifying Dijkstra (any finite graph, any integer weights) returns only walks of exactly the '
+                'reported cost that no walk undercuts, and NoRoute only if no walk exists; the reference router over the exact visibility graph '
+                '(lengths floored to 1e-12) therefore returns a shortest path of that graph (penalty 0), and for a segment penalty a cheapest '
+                'admissible sequence of the taut class (edges passing inValidRegion, bends passing validateBendPoint; states (previous vertex, '
+                'vertex) as ANode; 2*penalty for a reversal); the floor-sqrt lengths obey the triangle inequality up to 1e-12 per segment '
+                '(admissible straight-line heuristic); the cpp2v-generated inValidRegion equals the spec decider used for pruning. Tie: on every '
+                'run the cost of the implementation\'s displayRoute equals the extracted model optimum to 1e-6 (penalties 0, 1, 10; buffer 0 and, '
+                'for rectangles, > 0) and the compiled validateBendPoint equals its spec decider on an exhaustive grid.',
+        'design_ref': 'DESIGN.md 5.4'},
+    'level_note': 'partial: proof on the model. A* itself, the rotational sweep and that Dijkstra\'s loop always passes its own certificate are not '
+                  'proved (the explicit outcome SearchFail is excluded in every theorem and reported if it occurs); classical facts assumed: shortest '
+                  'obstacle-avoiding paths bend only at obstacle corners; for penalty > 0 optimality is claimed within the taut class only. '
+                  'Trusted: Coq kernel, cpp2v, extraction, drivers, exact-rational model of binary64 on integer scenes.',
+    'technique': 'Coq proof (certifying Dijkstra, exact visibility) + cost correspondence implementation vs extracted model',
+}
